@@ -387,6 +387,10 @@ func genMix(b Bias) func(g *rand.Rand, tier string) any {
 		if p.Topo.Kind >= TopoDemux {
 			p.Topo.Clients = 1 + g.IntN(3)
 		}
+		if p.Topo.Kind == TopoDirect && g.IntN(4) == 0 {
+			// one Server object serving several connections, each over its own transport
+			p.Topo.Clients = 2 + g.IntN(2)
+		}
 		p.Topo.Links = drawLinks(g, 2+2*p.Topo.Clients+2)
 		// class U: every link unbounded, any program shape; class B: bounded or
 		// rendezvous links, programs restricted to shapes whose receivers never
@@ -428,7 +432,7 @@ func genMix(b Bias) func(g *rand.Rand, tier string) any {
 				if g.IntN(100) < b.Errors {
 					spec.HStatus = drawStatus(g)
 					if b.OKCoded && g.IntN(6) == 0 {
-						spec.HStatus.ErrKind = 5 // an error whose own gRPC status says OK (C03 only: no interceptor rewrites it)
+						spec.HStatus.ErrKind = 5 // an error whose own gRPC status says OK (families whose interceptors pass errors through)
 						spec.HStatus.Details = 0
 					}
 				}
@@ -538,7 +542,7 @@ func init() {
 	reg("mix.status", []string{"C03"}, Bias{Streams: 60, Errors: 75, Metadata: 5, MaxMsgs: 4, MaxCalls: 6, OKCoded: true})
 	reg("mix.metadata", []string{"C04"}, Bias{Streams: 60, Errors: 25, Metadata: 100, MaxMsgs: 4, MaxCalls: 5})
 	reg("mix.early", []string{"C02", "C03", "C06", "C11"}, Bias{Streams: 90, Errors: 30, Metadata: 10, MaxMsgs: 6, MaxCalls: 6, EarlyRet: true})
-	reg("mix.side", []string{"C20"}, Bias{Streams: 55, Errors: 30, Metadata: 10, MaxMsgs: 4, MaxCalls: 6, Intercept: true})
+	reg("mix.side", []string{"C20"}, Bias{Streams: 55, Errors: 30, Metadata: 10, MaxMsgs: 4, MaxCalls: 6, Intercept: true, OKCoded: true})
 	Register(&Family{Name: "mix.transform", Props: []string{"C20"}, New: func() any { return &MixParams{} }, Exec: execMix, ShrinkKeys: []string{"callers"},
 		Gen: func(g *rand.Rand, tier string) any {
 			p := genMix(Bias{Streams: 40, Errors: 40, Metadata: 10, MaxMsgs: 4, MaxCalls: 6, Intercept: true})(g, tier).(*MixParams)
